@@ -196,10 +196,10 @@ func TestC13(t *testing.T) {
 		go func() { wg.Wait(); close(done) }()
 		select {
 		case <-done:
-		case <-time.After(45 * time.Second):
+		case <-time.After(90 * time.Second):
 			var dump [1 << 17]byte
 			n := runtime.Stack(dump[:], true)
-			t.Fatalf("C13 %s: %d calls still blocked 45s after the backend accepted connections again; goroutines:\n%s", descr, atomic.LoadInt64(&inflight), dump[:n])
+			t.Fatalf("C13 %s: %d calls still blocked 90s after the backend accepted connections again; goroutines:\n%s", descr, atomic.LoadInt64(&inflight), dump[:n])
 		}
 		fired := f.FaultsFired()
 		// non-triviality: a fired fault hit a request with further requests of the same batch behind or before it
@@ -273,10 +273,10 @@ func TestC13(t *testing.T) {
 		go func() { wg2.Wait(); close(done2) }()
 		select {
 		case <-done2:
-		case <-time.After(45 * time.Second):
+		case <-time.After(90 * time.Second):
 			var dump [1 << 17]byte
 			n := runtime.Stack(dump[:], true)
-			t.Fatalf("C13 %s: the pool does not serve a fault-free workload 45s after the faults stopped; goroutines:\n%s", descr, dump[:n])
+			t.Fatalf("C13 %s: the pool does not serve a fault-free workload 90s after the faults stopped; goroutines:\n%s", descr, dump[:n])
 		}
 		for _, p := range rprob {
 			if p != "" {
@@ -296,11 +296,11 @@ func TestC13(t *testing.T) {
 // waitPool waits until the fake sees pool-many open connections again; idle
 // connections only notice a cut when they are used, so it keeps poking them.
 func waitPool(t *rapid.T, env *batchEnv, pool int) {
-	deadline := time.Now().Add(30 * time.Second)
+	deadline := time.Now().Add(90 * time.Second)
 	h := env.handler()
 	for env.fake.OpenConns() < pool {
 		if time.Now().After(deadline) {
-			t.Fatalf("C13 %+v: only %d of %d pooled connections were re-established within 30s", env.cfg, env.fake.OpenConns(), pool)
+			t.Fatalf("C13 %+v: only %d of %d pooled connections were re-established within 90s", env.cfg, env.fake.OpenConns(), pool)
 		}
 		done := make(chan struct{})
 		go func() {
